@@ -323,9 +323,16 @@ def apply_op(w, op, index, check=True):
         else:
             after = snap.snapshot(w.m, with_xyzr=False)
             if after != before:
+                # Nothing is asserted about *what* a refused call leaves behind (the properties speak of accepted
+                # sequences) — except mutual consistency of the tables, which is model-independent: a refused call
+                # that leaves the module inconsistent breaks every later accepted call.
                 w.stopped = f"op {index}: rejected call changed the tables"
                 w.bump("non_atomic_reject")
                 out["outcome"] = "non_atomic_reject"
+                d2 = [x for x in structural_invariants(w.m) if not x.startswith("dangling:")]
+                if d2:
+                    w.violate("structural_invariant", f"after a refused {op['op']} ({type(raised).__name__}): " + "; ".join(d2[:4]), index,
+                              {"after_refused_call": True})
             else:
                 w.bump("fault_reject")
                 out["outcome"] = "rejected"
